@@ -51,7 +51,7 @@ func init() {
 			ruleAddrResolved, onlyObligations(ruleTLSPools, func(o *Obligation) bool { return strings.HasPrefix(o.Construct, "client pins the server certificate") }),
 		},
 		Technique:   "path-sensitive abstract interpretation over go/cfg (error nil-ness, len lower bounds, non-nil facts), dominance queries for validation gates, writer/reader table extraction",
-		Explanation: "Decides on every path of Client.Start and its helpers: every error produced while parsing the handshake line is read and, if non-nil, returned before the address is committed (R-ERR L1/L2); every constant index into the split line is within the established length (R-IDX); no optional config pointer is dereferenced unguarded (R-NILGUARD); the success commit is dominated by the core-version, app-version, address, protocol, certificate and multiplexing gates (R-GATE); the protocol/version/address reported are the line's fields (R-TABLE/handshake); the wait has a StartTimeout arm and an exit arm (R-BOUND); kill-on-error defer reads the named result (R-ORDER/O3). No nil-able result is dereferenced before the error returned with it was tested, anywhere in scope (R-ERR/L3); the stdout scanner hands every scanned line, unmodified, to the parser (R-DRAIN/lines). A handshake field k >= 3 is read whenever the line has at least k+1 fields (R-IDX/tight); the handshake address is translated with PluginToHost.",
+		Explanation: "Decides on every path of Client.Start and its helpers: every error produced while parsing the handshake line is read and, if non-nil, returned before the address is committed (R-ERR L1/L2); every constant index into the split line is within the established length (R-IDX); no optional config pointer is dereferenced unguarded (R-NILGUARD); the success commit is dominated by the core-version, app-version, address, protocol, certificate and multiplexing gates (R-GATE); the protocol/version/address reported are the line's fields (R-TABLE/handshake); the wait has a StartTimeout arm and an exit arm (R-BOUND); kill-on-error defer reads the named result (R-ORDER/O3). No nil-able result is dereferenced before the error returned with it was tested, anywhere in scope (R-ERR/L3); the stdout scanner hands every scanned line, unmodified, to the parser (R-DRAIN/lines). A handshake field k >= 3 is read whenever the line has at least k+1 fields (R-IDX/tight); the handshake address is translated with PluginToHost. No return of Start is reached with a certainly-nil error on a path without an assignment to the address result (R-ADDR); loadServerCert cannot succeed without pinning the certificate (R-TLS/pools, client side).",
 		NotDecided:  "what strconv.Atoi, ParseBool, net.Resolve*Addr and x509.ParseCertificate accept (library contracts); that the returned address is dialable.",
 		Assume:      []string{"net.ResolveTCPAddr/ResolveUnixAddr return a non-nil address iff the error is nil", "strings.Split with a non-empty separator returns at least one element"},
 	})
@@ -60,7 +60,7 @@ func init() {
 			return o.Rule == "R-ORDER/O5" || (o.Rule == "R-TABLE/env" && strings.Contains(o.Construct, "PLUGIN_PROTOCOL_VERSIONS"))
 		})},
 		Technique:   "typestate (sorted-descending) and loop-shape analysis of the negotiation function; map-key/value pairing by object identity; table agreement offered=accepted",
-		Explanation: "Decides for the algorithm in the tree: the list ranged by the outer loop that contains the match return is sorted descending at the loop head; the match is an == between the two loop variables; the returned version, plugin set and protocol are those of the matched key; the fallback return is reachable only after the loop (lowest); legacy fields are folded into the map before it is ranged on both sides; the client accepts only a key of the map it offered and stores the set of the same key; the offered list is exactly the map's keys. An element of the offered list that does not parse is skipped and never ends the parse loop; the offered-version variable is written after the inherited host environment so that the client's value wins (R-ORDER/O5). Both protocol servers are given the third result of protocolVersion; the client folds the legacy pair into VersionedPlugins only when that version is absent and a legacy set exists.",
+		Explanation: "Decides for the algorithm in the tree: the list ranged by the outer loop that contains the match return is sorted descending at the loop head; the match is an == between the two loop variables; the returned version, plugin set and protocol are those of the matched key; the fallback return is reachable only after the loop (lowest); legacy fields are folded into the map before it is ranged on both sides; the client accepts only a key of the map it offered and stores the set of the same key; the offered list is exactly the map's keys. An element of the offered list that does not parse is skipped and never ends the parse loop; the offered-version variable is written after the inherited host environment so that the client's value wins (R-ORDER/O5). Both protocol servers are given the third result of protocolVersion; the client folds the legacy pair into VersionedPlugins only when that version is absent and a legacy set exists. The plugin side folds the legacy pair only when a legacy set exists (R-NEG); the library assigns the Plugins/VersionedPlugins/ProtocolVersion configuration fields only at the reviewed sites (R-CFG/writers).",
 		NotDecided:  "the arithmetic fact that the first match in a descending list is the maximum of the intersection (taken as the algorithm's contract); a different negotiation algorithm is reported as undecided rather than verified.",
 		Assume:      []string{"sort.Sort(sort.Reverse(sort.IntSlice(x))) leaves x in descending order"},
 	})
@@ -70,7 +70,7 @@ func init() {
 			scoped(ruleErrL1Scoped, connectPath), scoped(ruleErrL2Scoped, connectPath),
 		},
 		Technique:   "CFG must-pass-through (exit bookkeeping after Wait), context-origin resolution, blocking-operation classification with reviewed table, WaitGroup pairing, error-path interpretation on the connect/dispense paths",
-		Explanation: "Decides: both goroutines that wait on the plugin cancel the context stored in Client.doneCtx and set Client.exited under the lock on every path after Wait (R-EXIT); the context handed to GRPCPlugin.GRPCClient and the stdio stream originates from Client.doneCtx (R-CTX); every blocking operation in the module is non-blocking, timer-bounded, cancellable or a reviewed bare wait, and the start/kill/broker waits have constant or configured timers (R-BOUND); WaitGroup Add/Done/Wait are paired (R-WG); errors on the connect and dispense paths are returned (R-ERR). No result is dereferenced before its error was tested (R-ERR/L3); the stdout drain is registered before any return of Start (R-ORDER/O4). Constant handshake indexes are in bounds (R-IDX); the pending-window timers of both brokers agree and lie within 3-10 s, constant context deadlines within 0.1-10 s (R-BOUND/window).",
+		Explanation: "Decides: both goroutines that wait on the plugin cancel the context stored in Client.doneCtx and set Client.exited under the lock on every path after Wait (R-EXIT); the context handed to GRPCPlugin.GRPCClient and the stdio stream originates from Client.doneCtx (R-CTX); every blocking operation in the module is non-blocking, timer-bounded, cancellable or a reviewed bare wait, and the start/kill/broker waits have constant or configured timers (R-BOUND); WaitGroup Add/Done/Wait are paired (R-WG); errors on the connect and dispense paths are returned (R-ERR). No result is dereferenced before its error was tested (R-ERR/L3); the stdout drain is registered before any return of Start (R-ORDER/O4). Constant handshake indexes are in bounds (R-IDX); the pending-window timers of both brokers agree and lie within 3-10 s, constant context deadlines within 0.1-10 s (R-BOUND/window). No method that takes an object's mutex is called on that object while the mutex is certainly held (R-LOCKORDER/self).",
 		NotDecided:  "that net/rpc, yamux and grpc-go fail in-flight calls when the peer dies (library behaviour); crash-point timing; host panics outside the listed constructs.",
 		Assume:      []string{"yamux with default config (keep-alive on) fails a session whose peer is gone", "grpc-go fails RPCs on a closed connection"},
 	})
@@ -81,7 +81,7 @@ func init() {
 			guardOn("Client.", "managedClients", "RPCServer.DoneCh", "GRPCServer.broker"), ruleClose1,
 		},
 		Technique:   "CFG path enumeration of Client.Kill (kill-or-exited on every exit), context-origin resolution for the shutdown RPC, sibling cross-check of ClientProtocol.Close, lockset, close-once classification",
-		Explanation: "Decides: every exit of Kill other than the no-runner early return and the arm that observed the exit context passes runner.Kill on the runner read under the lock; the grace wait is a short constant timer with an exit arm; the shutdown RPC carries a deadline (R-BOUND/rpc); both Close implementations send their protocol's shutdown request first and return its error / close the connection (R-SIB); Kill's deferred function waits for the management goroutines and CleanupClients adds/waits per client (R-WG); repeated or concurrent Kill touches shared fields only under the lock (R-GUARD) and closes no channel twice (R-CLOSE1). The runner Kill implementations signal the process on every path with a non-nil process (R-SIB/runnerkill); the net/rpc Quit handler does not end the server before its reply is written, and the control-connection server ends it afterwards iff Quit was requested. Constant context deadlines lie within 0.1-10 s; pending-window timers agree (R-BOUND/window).",
+		Explanation: "Decides: every exit of Kill other than the no-runner early return and the arm that observed the exit context passes runner.Kill on the runner read under the lock; the grace wait is a short constant timer with an exit arm; the shutdown RPC carries a deadline (R-BOUND/rpc); both Close implementations send their protocol's shutdown request first and return its error / close the connection (R-SIB); Kill's deferred function waits for the management goroutines and CleanupClients adds/waits per client (R-WG); repeated or concurrent Kill touches shared fields only under the lock (R-GUARD) and closes no channel twice (R-CLOSE1). The runner Kill implementations signal the process on every path with a non-nil process (R-SIB/runnerkill); the net/rpc Quit handler does not end the server before its reply is written, and the control-connection server ends it afterwards iff Quit was requested. Constant context deadlines lie within 0.1-10 s; pending-window timers agree (R-BOUND/window). exec.Cmd.Process is dereferenced only behind a non-nil test or the command's Start (R-NILGUARD/proc); the library never branches on the Killed flag (R-GLOBAL/killed); the stderr read loop ends on a read error; no self re-acquisition of a held mutex (R-LOCKORDER/self).",
 		NotDecided:  "that the OS reaps the process; SIGSTOP behaviour; real latencies.",
 		Assume:      []string{"context.WithTimeout bounds a unary gRPC call", "os.Process.Kill delivers SIGKILL"},
 	})
@@ -91,7 +91,7 @@ func init() {
 			scoped(ruleBoundScoped, fnIn("Client.Start")), onlyObligations(ruleDrain, func(o *Obligation) bool { return strings.Contains(o.Construct, "loop ends on read error") }),
 		},
 		Technique:   "dominance/ordering queries on Client.Start (runner recorded before launch; kill-on-error defer registered right after a successful launch and reading the named result), error-path interpretation, Kill path enumeration",
-		Explanation: "Decides: the runner is stored in the client before it is started (O2); the deferred cleanup is registered immediately after a successful runner.Start with no return in between, and kills the runner iff the named result err is non-nil or a panic is in flight (O3); every post-launch failure is returned as a non-nil error so the guard fires (R-ERR/L2); Kill force-kills when no address was negotiated (R-EXIT/kill) and removes the socket directory on every non-early exit (R-RES/socketdir). Start stores client state (socket directory, runner) only behind the launched-once test, so a refused second Start cannot wipe what Kill has to clean up.",
+		Explanation: "Decides: the runner is stored in the client before it is started (O2); the deferred cleanup is registered immediately after a successful runner.Start with no return in between, and kills the runner iff the named result err is non-nil or a panic is in flight (O3); every post-launch failure is returned as a non-nil error so the guard fires (R-ERR/L2); Kill force-kills when no address was negotiated (R-EXIT/kill) and removes the socket directory on every non-early exit (R-RES/socketdir). Start stores client state (socket directory, runner) only behind the launched-once test, so a refused second Start cannot wipe what Kill has to clean up. Every blocking wait in Start is bounded (R-BOUND on Start); the stderr read loop ends on a read error; the socket-directory local of Kill is bound once; no self re-acquisition of a held mutex (R-LOCKORDER/self).",
 		NotDecided:  "process liveness itself (that Kill on the runner ends the process).",
 		Assume:      []string{"deferred functions run on every return and on panic"},
 	})
@@ -100,7 +100,7 @@ func init() {
 			ruleIDMux, ruleSlot, guardOn("MuxBroker."), scoped(ruleBoundScoped, fnIn("MuxBroker.Accept", "MuxBroker.timeoutWait", "MuxBroker.Run", "MuxBroker.Dial")), ruleAtomicIDs,
 		},
 		Technique:   "origin (def-use) resolution of the brokered id on both ends, channel-capacity check, lockset on the pending map, timer-arm classification",
-		Explanation: "Decides the id-keyed hand-off structure: Dial writes its id parameter to the wire and fails unless the echoed ack equals it; Run files each inbound stream under the id read from that stream; Accept takes from the slot of its id parameter and echoes the same id; Dispense hands the same id to the response and to Accept, and the client dials the id it received (R-ID); the slot channel has capacity >= 1 so parking never blocks (R-SLOT); the id map is touched only under the broker mutex (R-GUARD); accept and expiry have 5 s timers (R-BOUND); NextId is an atomic add with no other writer. No absolute I/O deadline stays armed on a connection that outlives the function (R-DEADLINE). The id/ack wire encoding agrees on both ends (R-SIB/wire); the pending-window timers agree (R-BOUND/window); pending slots have capacity exactly 1.",
+		Explanation: "Decides the id-keyed hand-off structure: Dial writes its id parameter to the wire and fails unless the echoed ack equals it; Run files each inbound stream under the id read from that stream; Accept takes from the slot of its id parameter and echoes the same id; Dispense hands the same id to the response and to Accept, and the client dials the id it received (R-ID); the slot channel has capacity >= 1 so parking never blocks (R-SLOT); the id map is touched only under the broker mutex (R-GUARD); accept and expiry have 5 s timers (R-BOUND); NextId is an atomic add with no other writer. No absolute I/O deadline stays armed on a connection that outlives the function (R-DEADLINE). The id/ack wire encoding agrees on both ends (R-SIB/wire); the pending-window timers agree (R-BOUND/window); pending slots have capacity exactly 1. Every healthy iteration of Run offers the inbound stream to its id's slot (R-ROUTE/all); Accept cancels the slot's expiry once it took the connection (R-PEND/done); an expired slot closes the connection parked in it on every feasible path from the timer arm (R-EXPIRY/drain); no wait under the broker mutex.",
 		NotDecided:  "routing under all interleavings and byte integrity/order of yamux streams (schedule and library properties with no static bound in reach).",
 		Assume:      []string{"yamux delivers each stream's bytes in order to its peer only"},
 	})
@@ -111,7 +111,7 @@ func init() {
 			ruleTLSUse, ruleAtomicIDs,
 		},
 		Technique:   "origin resolution of ConnInfo.ServiceId on both ends, channel-capacity check, lockset, error-path interpretation, TLS option provenance",
-		Explanation: "Decides: Accept advertises its id parameter with the address of the listener it just opened; Run files each message under msg.ServiceId; Dial waits on the slot of its id parameter and dials the address in that message, returning translation/resolve errors (R-ID, R-ERR); slots are buffered (R-SLOT); both pending maps are touched only under the broker mutex (R-GUARD); the dial wait and the expiry have 5 s timers (R-BOUND); brokered servers and dials use the broker's TLS config (R-TLS/use). No absolute I/O deadline stays armed on a connection that outlives the function (R-DEADLINE); accept-side code touches only the accept-side pending table and dial-side code only the dial-side one (R-ID/role). The pending-window timers agree (R-BOUND/window); Accept translates with HostToPlugin and DialWithOptions with PluginToHost; pending slots have capacity exactly 1; no append into a caller-owned option slice (R-ALIAS).",
+		Explanation: "Decides: Accept advertises its id parameter with the address of the listener it just opened; Run files each message under msg.ServiceId; Dial waits on the slot of its id parameter and dials the address in that message, returning translation/resolve errors (R-ID, R-ERR); slots are buffered (R-SLOT); both pending maps are touched only under the broker mutex (R-GUARD); the dial wait and the expiry have 5 s timers (R-BOUND); brokered servers and dials use the broker's TLS config (R-TLS/use). No absolute I/O deadline stays armed on a connection that outlives the function (R-DEADLINE); accept-side code touches only the accept-side pending table and dial-side code only the dial-side one (R-ID/role). The pending-window timers agree (R-BOUND/window); Accept translates with HostToPlugin and DialWithOptions with PluginToHost; pending slots have capacity exactly 1; no append into a caller-owned option slice (R-ALIAS). Every healthy iteration of Run offers the message to its id's slot (R-ROUTE/all); DialWithOptions cancels the slot's expiry once it took the connection info (R-PEND/done); the dial serialisation mutex excuses a bounded wait only in the multiplexed dialer (R-LOCKBLOCK, designated holders).",
 		NotDecided:  "routing under all interleavings; that grpc-go connects to the address it was given.",
 	})
 	register(&propDef{ID: "C08",
@@ -119,7 +119,7 @@ func init() {
 			ruleOrderO8, ruleMuxSer, ruleSlot, ruleIDKnock, guardOn("grpcmux.", "GRPCBroker.serverStreams", "GRPCBroker.clientStreams"),
 		},
 		Technique:   "dominance query (listener registration before knock goroutine), must-held lockset for the serialised dial, channel-capacity check, id origin resolution",
-		Explanation: "Decides: in the multiplexed Accept the listener for the id is registered with the muxer before the goroutine that answers knocks starts (O8, the dial-first failure); the knock and the stream dial both run with dialMutex held (R-MUXSER); the server muxer reads the knocked id only after session.Accept returned and routes un-knocked streams to the default listener; knockCh and waitCh are buffered (R-SLOT); knock and ack compare msg.ServiceId with the id (R-ID); the listener maps are touched only under acceptMutex (R-GUARD). Accept-side and dial-side pending tables are never mixed (R-ID/role); the hand-off of a knocked stream is a send that cannot give up; the server muxer wraps the listener only on the gRPC arm; no deadline stays armed (R-DEADLINE). The knock message shapes and every receiver-side classification condition are evaluated against each other (R-ID/knock table).",
+		Explanation: "Decides: in the multiplexed Accept the listener for the id is registered with the muxer before the goroutine that answers knocks starts (O8, the dial-first failure); the knock and the stream dial both run with dialMutex held (R-MUXSER); the server muxer reads the knocked id only after session.Accept returned and routes un-knocked streams to the default listener; knockCh and waitCh are buffered (R-SLOT); knock and ack compare msg.ServiceId with the id (R-ID); the listener maps are touched only under acceptMutex (R-GUARD). Accept-side and dial-side pending tables are never mixed (R-ID/role); the hand-off of a knocked stream is a send that cannot give up; the server muxer wraps the listener only on the gRPC arm; no deadline stays armed (R-DEADLINE). The knock message shapes and every receiver-side classification condition are evaluated against each other (R-ID/knock table). Every healthy iteration of GRPCBroker.Run offers the message (knock or ack) to its id's slot (R-ROUTE/all).",
 		NotDecided:  "the four-goroutine hand-off under all schedules; behaviour when brokered connections are not established sequentially (excluded by the API contract).",
 	})
 	register(&propDef{ID: "C09",
@@ -128,65 +128,65 @@ func init() {
 			ruleRes, ruleExpiry, ruleClose1,
 		},
 		Technique:   "lock-region x blocking-operation analysis (intra- and inter-procedural), timer-arm classification, resource typestate on inbound streams, close-once classification",
-		Explanation: "Decides: no send/receive/select/Wait executes while a broker mutex may be held, directly or in a synchronous callee (R-LOCKBLOCK); every broker accept/dial/knock wait has a constant 5 s timer arm (R-BOUND); an inbound stream that cannot be parked is closed, so its dialer fails instead of hanging (R-RES); every parked dial-side slot gets an expiry goroutine and both Run loops exit on session/stream error (R-EXPIRY); no channel is closed twice (R-CLOSE1). Pending slots have capacity exactly 1; MuxBroker.Close closes the yamux session; accept-side and dial-side pending tables are never mixed (R-ID/role); pending-window timers agree.",
+		Explanation: "Decides: no send/receive/select/Wait executes while a broker mutex may be held, directly or in a synchronous callee (R-LOCKBLOCK); every broker accept/dial/knock wait has a constant 5 s timer arm (R-BOUND); an inbound stream that cannot be parked is closed, so its dialer fails instead of hanging (R-RES); every parked dial-side slot gets an expiry goroutine and both Run loops exit on session/stream error (R-EXPIRY); no channel is closed twice (R-CLOSE1). Pending slots have capacity exactly 1; MuxBroker.Close closes the yamux session; accept-side and dial-side pending tables are never mixed (R-ID/role); pending-window timers agree. Every healthy iteration of both Run loops hands the message to a slot (R-ROUTE/all); an expired net/rpc slot closes its parked connection (R-EXPIRY/drain); closing the client closes the broker (R-SIB/close).",
 		NotDecided:  "the expiry-instant race as a timing fact (its harmful effect, a blocking receive under the lock, is what R-LOCKBLOCK excludes); goroutine termination after Close.",
 	})
 	register(&propDef{ID: "C10",
 		Rules:       []func(*Ctx){ruleIdxOutput, ruleKVForward, ruleJSONKeys, ruleDrainSink, ruleStdioSequential, ruleStdoutLines, ruleStderrNewline, rulePanicFlag, ruleAssert, ruleDrain, ruleOrderO4, ruleLogLevels, onlyObligations(ruleWG, func(o *Obligation) bool { return strings.Contains(o.Construct, "pipe") })},
 		Technique:   "call-graph reachability from the reader goroutines + type-assertion form check; loop-exit analysis against a reader effect table; case-to-method table agreement",
-		Explanation: "Decides: no single-result type assertion is reachable from the stdout/stderr reader goroutines (R-ASSERT); the stderr loop ends only on a non-nil read error and every successfully read chunk passes config.Stderr.Write(line) before the next read; the stdout scanner's early stop (ErrTooLong) is followed by a drain of the same reader (R-DRAIN); the drain goroutine for the line channel is registered right after its producer (O4); each [LEVEL] prefix and hclog level is logged with the method of the same name, panic: with Error, default Debug or Error inside a panic trace (R-TABLE/levels). Every scanned stdout line is handed on (R-DRAIN/lines); the goroutines reading the two pipes are counted in the WaitGroup the reaper waits for before runner.Wait (R-WG); chunks are forwarded by the loop that received them (R-ORDER/stdio). Each hclog key read from the JSON record is the key removed from the remainder; the fallback drain of stdout copies to io.Discard.",
+		Explanation: "Decides: no single-result type assertion is reachable from the stdout/stderr reader goroutines (R-ASSERT); the stderr loop ends only on a non-nil read error and every successfully read chunk passes config.Stderr.Write(line) before the next read; the stdout scanner's early stop (ErrTooLong) is followed by a drain of the same reader (R-DRAIN); the drain goroutine for the line channel is registered right after its producer (O4); each [LEVEL] prefix and hclog level is logged with the method of the same name, panic: with Error, default Debug or Error inside a panic trace (R-TABLE/levels). Every scanned stdout line is handed on (R-DRAIN/lines); the goroutines reading the two pipes are counted in the WaitGroup the reaper waits for before runner.Wait (R-WG); chunks are forwarded by the loop that received them (R-ORDER/stdio). Each hclog key read from the JSON record is the key removed from the remainder; the fallback drain of stdout copies to io.Discard. Constant indexes/slice bounds on plugin-derived strings and slices in the reader goroutines are covered by an established length, and never applied to an unmeasured call result (R-IDX/out); every element of the JSON key/value remainder reaches every append of its loop (R-TABLE/kv); the stderr read loop ends on a read error.",
 		NotDecided:  "newline/continuation reconstruction for every buffer size (value-level); hclog's own formatting.",
 		Assume:      []string{"bufio.Reader.ReadLine returns a non-nil error only at EOF or read failure", "bufio.Scanner stops with ErrTooLong at a 64 KiB token"},
 	})
 	register(&propDef{ID: "C11",
 		Rules:       []func(*Ctx){ruleNoCloseWriter, scoped(ruleBoundScoped, fnIn("grpcStdioServer.StreamStdio", "grpcStdioClient.Run", "copyChan")), ruleDrainSink, ruleDefaults, ruleStdioSequential, ruleDeadline, ruleCtx, ruleStdioWiring, ruleFresh, ruleCopyChan},
 		Technique:   "label propagation (stdout/stderr) over resolved fields, parameters and constants; allocation-site-in-loop check; statement ordering in the chunk loop",
-		Explanation: "Decides the wiring and aliasing conditions: every edge of the stdio path joins equal labels (os.Pipe pair -> os.Stdout/os.Stderr and the server's Stdout/Stderr fields -> stdoutCh/stderrCh -> STDOUT/STDERR tags -> host stdout/stderr writers <- SyncStdout/SyncStderr; net/rpc stream 0/1 on both ends) (R-TABLE/stdio); the chunk sent on the channel is backed by an array declared inside the loop body, so a later read cannot overwrite bytes in flight (R-FRESH); data[:n] is sent before the error of the same read is acted on and the hand-off is an unconditional blocking send (O10). Every loop of the stdio path forwards the chunk it received itself (no goroutine per chunk: R-ORDER/stdio); no absolute deadline stays armed on the stdio streams (R-DEADLINE). Every non-empty read is forwarded (guard n > 0); NewClient stores a default only into the field it found unset (R-DEFAULTS).",
+		Explanation: "Decides the wiring and aliasing conditions: every edge of the stdio path joins equal labels (os.Pipe pair -> os.Stdout/os.Stderr and the server's Stdout/Stderr fields -> stdoutCh/stderrCh -> STDOUT/STDERR tags -> host stdout/stderr writers <- SyncStdout/SyncStderr; net/rpc stream 0/1 on both ends) (R-TABLE/stdio); the chunk sent on the channel is backed by an array declared inside the loop body, so a later read cannot overwrite bytes in flight (R-FRESH); data[:n] is sent before the error of the same read is acted on and the hand-off is an unconditional blocking send (O10). Every loop of the stdio path forwards the chunk it received itself (no goroutine per chunk: R-ORDER/stdio); no absolute deadline stays armed on the stdio streams (R-DEADLINE). Every non-empty read is forwarded (guard n > 0); NewClient stores a default only into the field it found unset (R-DEFAULTS). No value held as an io.Writer is asserted to a closer (R-OWN/writer); the context of the long-lived stdio stream is the context parameter as received (R-CTX); the stdio handlers' waits have a cancellation arm (R-BOUND).",
 		NotDecided:  "byte-exactness and ordering themselves (gRPC stream, yamux and io.Copy contracts); data written before the host attaches.",
 	})
 	register(&propDef{ID: "C12",
 		Rules:       []func(*Ctx){cfgWritersFor("ClientConfig.TLSConfig", "ClientConfig.AutoMTLS", "ServeConfig.TLSProvider"), ruleCtorStoresTLS, ruleTLSConfig, ruleTLSPools, ruleTLSUse, ruleCertGen, ruleAutoMTLSGate, ruleEnvCertOnly, scoped(ruleErrL2Scoped, fnIn("Client.Start", "Client.loadServerCert")), scoped(ruleErrL1Scoped, fnIn("Client.loadServerCert"))},
 		Technique:   "composite-literal and field-store audit of every tls.Config in scope; origin resolution of certificate pools; provenance of TLS options at every listener/dial constructor call site",
-		Explanation: "Decides what go-plugin itself contributes to mutual authentication: both tls.Config literals require and verify client certificates, set MinVersion >= TLS 1.2, carry the freshly generated pair and no verification bypass, and no store weakens them (R-TLS/config); RootCAs and ClientCAs are, on both sides, a fresh pool that received exactly the peer's handshake certificate (R-TLS/pools); every gRPC server factory call, dialGRPCConn call and broker construction passes the owner's TLS config, the insecure dial option is dominated by tls == nil, and the net/rpc listener/conn are wrapped under a non-nil config (R-TLS/use); the two certificates travel in PLUGIN_CLIENT_CERT and handshake field 6; a certificate that cannot be parsed or pinned fails the start (R-ERR on Start/loadServerCert). The credential generator draws key and certificate from crypto/rand.Reader, self-signs with the generated key over its public half, and returns that same key (R-TLS/certgen). The server builds the mutual-TLS configuration on every path on which a client certificate is present and no provider configuration exists, and the only stores to ClientConfig.TLSConfig assign the audited literal (R-TLS/automtls).",
+		Explanation: "Decides what go-plugin itself contributes to mutual authentication: both tls.Config literals require and verify client certificates, set MinVersion >= TLS 1.2, carry the freshly generated pair and no verification bypass, and no store weakens them (R-TLS/config); RootCAs and ClientCAs are, on both sides, a fresh pool that received exactly the peer's handshake certificate (R-TLS/pools); every gRPC server factory call, dialGRPCConn call and broker construction passes the owner's TLS config, the insecure dial option is dominated by tls == nil, and the net/rpc listener/conn are wrapped under a non-nil config (R-TLS/use); the two certificates travel in PLUGIN_CLIENT_CERT and handshake field 6; a certificate that cannot be parsed or pinned fails the start (R-ERR on Start/loadServerCert). The credential generator draws key and certificate from crypto/rand.Reader, self-signs with the generated key over its public half, and returns that same key (R-TLS/certgen). The server builds the mutual-TLS configuration on every path on which a client certificate is present and no provider configuration exists, and the only stores to ClientConfig.TLSConfig assign the audited literal (R-TLS/automtls). The client-certificate variable tested by the AutoMTLS gate holds the environment value (single assignment); TLSConfig/AutoMTLS/TLSProvider are assigned only at the reviewed site (R-CFG/writers).",
 		NotDecided:  "that crypto/tls enforces what is configured.",
 		Assume:      []string{"crypto/tls with ClientAuth=RequireAndVerifyClientCert and a single-certificate pool accepts only that certificate's key"},
 	})
 	register(&propDef{ID: "C13",
 		Rules:       []func(*Ctx){cfgWritersFor("SecureConfig.Checksum", "SecureConfig.Hash", "ClientConfig.SecureConfig", "ClientConfig.Cmd"), ruleCmdPathImmutable, ruleSecureOrder, ruleCmp, ruleSentinelSecure, scoped(ruleErrL1Scoped, fnIn("SecureConfig.Check")), scoped(ruleErrL2Scoped, fnIn("SecureConfig.Check"))},
 		Technique:   "dominance of every launch site by the checksum gate; origin resolution of the compared operands; sentinel-return check",
-		Explanation: "Decides: SecureConfig.Check(cmd.Path) with both results tested dominates every launch site in Start (O1, G-sum); the boolean returned by Check is subtle.ConstantTimeCompare (or bytes.Equal) of the un-sliced Hash.Sum(nil) after io.Copy(Hash, file) of the file opened from the path parameter against the un-sliced Checksum (R-CMP); the empty-checksum and nil-hash guards return their sentinels before the file is opened, a mismatch returns ErrChecksumsDoNotMatch (R-SENT). Nothing in the module assigns exec.Cmd.Path or Args, so the hashed file is the executed file.",
+		Explanation: "Decides: SecureConfig.Check(cmd.Path) with both results tested dominates every launch site in Start (O1, G-sum); the boolean returned by Check is subtle.ConstantTimeCompare (or bytes.Equal) of the un-sliced Hash.Sum(nil) after io.Copy(Hash, file) of the file opened from the path parameter against the un-sliced Checksum (R-CMP); the empty-checksum and nil-hash guards return their sentinels before the file is opened, a mismatch returns ErrChecksumsDoNotMatch (R-SENT). Nothing in the module assigns exec.Cmd.Path or Args, so the hashed file is the executed file. The library never assigns SecureConfig.Checksum/Hash, ClientConfig.SecureConfig or ClientConfig.Cmd (R-CFG/writers).",
 		NotDecided:  "hash function behaviour; replacement of the file between check and exec (documented upstream).",
 		Assume:      []string{"subtle.ConstantTimeCompare returns 1 iff the slices have equal length and contents"},
 	})
 	register(&propDef{ID: "C14",
 		Rules:       []func(*Ctx){cfgWritersFor("ClientConfig.AllowedProtocols", "ClientConfig.GRPCBrokerMultiplex", "ClientConfig.TLSConfig", "ClientConfig.AutoMTLS", "ClientConfig.Reattach", "ClientConfig.RunnerFunc", "ServeConfig.GRPCServer", "ServeConfig.TLSProvider"), ruleTLSConfig, ruleTranslateDirections, ruleDialOptions, ruleHostEnvFilter, ruleMuxOnlyGRPC, ruleCtorStoresTLS, ruleGateExcl, ruleGateProtoMux, ruleSibDispense, ruleSibSwitch, ruleOrderStart, ruleTLSUse},
 		Technique:   "dominance queries for configuration gates, sibling cross-check of Dispense implementations and protocol switches, TLS option provenance",
-		Explanation: "Decides: the exclusivity checks (exactly one of Cmd/Reattach/RunnerFunc; SecureConfig or multiplexing with Reattach) return errors before any launch site (G-excl); the announced protocol must be in AllowedProtocols and the multiplexing field must be present and true when requested, failing with an error that is or wraps ErrGRPCBrokerMuxNotSupported (G-proto, G-mux); all three Dispense implementations return a non-nil error on a map miss; Client() and Serve switch over both protocols with an error/panic default; NewClient defaults AllowedProtocols to exactly net/rpc (R-SIB); refused configurations terminate the plugin (O3); plaintext is used only when no TLS config exists (R-TLS/use). The yamux server muxer wraps the listener only on the gRPC arm of the protocol switch. dialGRPCConn lifts the message size limit in both directions (R-SIB/dialopts); translation directions (R-ID/translate); the host-environment filter drops the feature variables whatever their value.",
+		Explanation: "Decides: the exclusivity checks (exactly one of Cmd/Reattach/RunnerFunc; SecureConfig or multiplexing with Reattach) return errors before any launch site (G-excl); the announced protocol must be in AllowedProtocols and the multiplexing field must be present and true when requested, failing with an error that is or wraps ErrGRPCBrokerMuxNotSupported (G-proto, G-mux); all three Dispense implementations return a non-nil error on a map miss; Client() and Serve switch over both protocols with an error/panic default; NewClient defaults AllowedProtocols to exactly net/rpc (R-SIB); refused configurations terminate the plugin (O3); plaintext is used only when no TLS config exists (R-TLS/use). The yamux server muxer wraps the listener only on the gRPC arm of the protocol switch. dialGRPCConn lifts the message size limit in both directions (R-SIB/dialopts); translation directions (R-ID/translate); the host-environment filter drops the feature variables whatever their value. Every store to Client.address in Start is behind all handshake gates, including the evaluation of the multiplexing request (all commits, not only the last); both tls.Config literals require client certificates (R-TLS/config); the option fields are assigned only at the reviewed sites (R-CFG/writers).",
 		NotDecided:  "the end-to-end behaviour of each cell of the configuration matrix.",
 	})
 	register(&propDef{ID: "C15",
 		Rules:       []func(*Ctx){cfgWritersFor("ReattachConfig.Test", "ReattachConfig.Protocol", "ReattachConfig.Addr", "ClientConfig.Reattach"), ruleProcHandle, onlyObligations(ruleSibClose, func(o *Obligation) bool { return strings.HasPrefix(o.Construct, "Quit ") }), ruleRunnerKill, ruleReattach, ruleSentinelReattach, ruleExit, ruleGateExcl},
 		Technique:   "dominance (runner recorded only outside test mode), field-provenance of address/protocol, sentinel-return check, exit bookkeeping",
-		Explanation: "Decides: in reattach the store to Client.runner is dominated by the false edge of Reattach.Test; address and protocol come from the ReattachConfig with net/rpc as default; Client.ReattachConfig() and the test-mode literal in Serve fill Protocol, Addr, Pid, Test from the negotiated protocol, the listener address, the pid and true; both failure paths of the reattach probe return ErrProcessNotFound; the reattach goroutine cancels the context and marks exit. Both runner Kill implementations call os.Process.Kill on every path with a process (R-SIB/runnerkill). The control-connection server ends the plugin only on an edge on which the quit flag is known to be set.",
+		Explanation: "Decides: in reattach the store to Client.runner is dominated by the false edge of Reattach.Test; address and protocol come from the ReattachConfig with net/rpc as default; Client.ReattachConfig() and the test-mode literal in Serve fill Protocol, Addr, Pid, Test from the negotiated protocol, the listener address, the pid and true; both failure paths of the reattach probe return ErrProcessNotFound; the reattach goroutine cancels the context and marks exit. Both runner Kill implementations call os.Process.Kill on every path with a process (R-SIB/runnerkill). The control-connection server ends the plugin only on an edge on which the quit flag is known to be set. The process handle stored in the attached runner is not released (R-RES/handle); the reattach configuration fields are never assigned by the library (R-CFG/writers).",
 		NotDecided:  "that the address reaches the same plugin instance (a run-time value).",
 	})
 	register(&propDef{ID: "C16",
 		Rules:       []func(*Ctx){cfgWritersFor("HandshakeConfig.MagicCookieKey", "HandshakeConfig.MagicCookieValue"), onlyObligations(ruleHostEnvFilter, func(o *Obligation) bool { return strings.Contains(o.Construct, "PLUGIN_MULTIPLEX_GRPC") }), ruleServeMuxExit, ruleServeServes, ruleCookie, ruleOrderServe, ruleHandshakeTable, ruleStdout},
 		Technique:   "dominance of listener/print sites by the cookie gate, statement ordering in Serve, format-string/argument table extraction, who-may-write audit of os.Stdout",
-		Explanation: "Decides: the empty key/value test and the exact != comparison of os.Getenv(key) with the value set exit code 1 and return before any listen or print site, and the deferred os.Exit reads that variable (G-cookie); the listener and server.Init precede the handshake print, print and Sync precede the os.Stdout swap (O6); the line is Sprintf(\"%d|%d|%s|%s|%s|%s\") of core version, negotiated version, listener network/address, protocol and certificate, with a seventh field only under os.Getenv(PLUGIN_MULTIPLEX_GRPC) != \"\" (R-TABLE/handshake); the only write to the real stdout in scope is that print (R-STDOUT). Both ServerProtocol.Serve implementations reach the accept loop on the announced listener on every path (nothing fallible between the print and accepting). ServeMux exits with status 1 on improper invocation.",
+		Explanation: "Decides: the empty key/value test and the exact != comparison of os.Getenv(key) with the value set exit code 1 and return before any listen or print site, and the deferred os.Exit reads that variable (G-cookie); the listener and server.Init precede the handshake print, print and Sync precede the os.Stdout swap (O6); the line is Sprintf(\"%d|%d|%s|%s|%s|%s\") of core version, negotiated version, listener network/address, protocol and certificate, with a seventh field only under os.Getenv(PLUGIN_MULTIPLEX_GRPC) != \"\" (R-TABLE/handshake); the only write to the real stdout in scope is that print (R-STDOUT). Both ServerProtocol.Serve implementations reach the accept loop on the announced listener on every path (nothing fallible between the print and accepting). ServeMux exits with status 1 on improper invocation. The inherited PLUGIN_MULTIPLEX_GRPC is filtered from the host environment (the seventh field appears only when this host asked); the magic cookie fields are never assigned (R-CFG/writers).",
 		NotDecided:  "the exit status as observed by the OS; that a listening socket queues connections before Accept (kernel contract).",
 	})
 	register(&propDef{ID: "C17",
 		Rules:       []func(*Ctx){cfgWritersFor("ClientConfig.AutoMTLS", "ClientConfig.GRPCBrokerMultiplex", "ClientConfig.SkipHostEnv", "ClientConfig.VersionedPlugins", "ClientConfig.Cmd", "ClientConfig.UnixSocketConfig", "ClientConfig.HandshakeConfig", "HandshakeConfig.MagicCookieKey", "HandshakeConfig.MagicCookieValue", "HandshakeConfig.ProtocolVersion"), ruleLegacyFold, ruleDefaults, ruleHostEnvFilter, ruleEnv},
 		Technique:   "extraction of every element reaching exec.Cmd.Env with its dominating configuration conditions, compared with the reference table and with every os.Getenv reachable from Serve",
-		Explanation: "Decides the whole structural content of the property: each control variable is appended under exactly its configuration condition, the host environment exactly when SkipHostEnv is false and before every control variable, stdin unconditionally, the offered versions are the keys of the map the acceptance check ranges; every variable the server reads is one the client writes; conditional 'exactly when' variables are filtered out of the inherited environment. A control variable's conditions beyond the gates common to all of them are exactly its feature condition. NewClient defaults (R-DEFAULTS); the host-environment filter tests NAME= on the environment entry itself; legacy fold only if absent and set.",
+		Explanation: "Decides the whole structural content of the property: each control variable is appended under exactly its configuration condition, the host environment exactly when SkipHostEnv is false and before every control variable, stdin unconditionally, the offered versions are the keys of the map the acceptance check ranges; every variable the server reads is one the client writes; conditional 'exactly when' variables are filtered out of the inherited environment. A control variable's conditions beyond the gates common to all of them are exactly its feature condition. NewClient defaults (R-DEFAULTS); the host-environment filter tests NAME= on the environment entry itself; legacy fold only if absent and set. The configuration fields that determine the launch environment are assigned only at the reviewed sites (R-CFG/writers).",
 		NotDecided:  "exec.Cmd's duplicate-key resolution (later entries win).",
 		Assume:      []string{"exec.Cmd de-duplicates Env keeping the last value"},
 	})
 	register(&propDef{ID: "C18",
-		Rules:       []func(*Ctx){ruleIDRoles, ruleBrokerCloseCloses, onlyObligations(ruleSibClose, func(o *Obligation) bool { return strings.HasPrefix(o.Construct, "closes the") }), ruleWrapClose, ruleRes, ruleSocketDir, ruleStopClosesBroker, ruleWG, ruleBound},
+		Rules:       []func(*Ctx){ruleBrokerListeners, ruleIDRoles, ruleBrokerCloseCloses, onlyObligations(ruleSibClose, func(o *Obligation) bool { return strings.HasPrefix(o.Construct, "closes the") }), ruleWrapClose, ruleRes, ruleSocketDir, ruleStopClosesBroker, ruleWG, ruleBound},
 		Technique:   "wrapper-closes-wrapped audit of every net.Listener implementation, resource typestate (listener closed on every return), Kill path enumeration",
-		Explanation: "Decides: every module type that implements net.Listener and is built from a listener retains it and closes it on every path through Close; rmListener also runs its extra close function and the file listener removes the path it listens on (R-WRAPCLOSE); Serve and AcceptAndServe close their listener on every return after creation (R-RES, O7); Kill removes the socket directory on every non-early exit (R-RES/socketdir); Stop/GracefulStop close the broker; Kill waits for the management goroutines (R-WG); of the goroutine clause the necessary condition that no go-plugin goroutine can park forever: every blocking operation is non-blocking, timer-bounded, cancellation-terminated or in the reviewed table with its wake-up argument (R-BOUND). Both ClientProtocol.Close implementations close connection and broker on every path on which no close step failed (R-SIB/close). MuxBroker.Close closes the session; accept/dial pending tables are not mixed (R-ID/role).",
+		Explanation: "Decides: every module type that implements net.Listener and is built from a listener retains it and closes it on every path through Close; rmListener also runs its extra close function and the file listener removes the path it listens on (R-WRAPCLOSE); Serve and AcceptAndServe close their listener on every return after creation (R-RES, O7); Kill removes the socket directory on every non-early exit (R-RES/socketdir); Stop/GracefulStop close the broker; Kill waits for the management goroutines (R-WG); of the goroutine clause the necessary condition that no go-plugin goroutine can park forever: every blocking operation is non-blocking, timer-bounded, cancellation-terminated or in the reviewed table with its wake-up argument (R-BOUND). Both ClientProtocol.Close implementations close connection and broker on every path on which no close step failed (R-SIB/close). MuxBroker.Close closes the session; accept/dial pending tables are not mixed (R-ID/role). Every brokered listener Accept creates is recorded in the broker, GRPCBroker.Close closes the recorded listeners in its own goroutine, and GRPCServer.Stop closes the broker before it stops the server, so the socket files are gone before the plugin process can exit (R-RES/brokerls).",
 		NotDecided:  "the rest of the goroutine clause: that each loop actually exits within seconds of Kill is a liveness property over runtime events; R-BOUND only excludes operations that can wait forever.",
 	})
 	register(&propDef{ID: "C19",
